@@ -131,11 +131,11 @@ def body(ck, F, cfg):
                     rule, ok, why = "UNDISCHARGED", False, "; ".join(sorted({e["detail"] for e in bad}))
             else:
                 rule, ok, why = "NOT_VISITED", False, "no TERM evaluation of this expression on the analysed entry points"
-            inst = f"{short_fn}:{kind}:{key_detail}"[:150]
+            inst = re.sub(r"#\d+", "", f"{short_fn}:{kind}:{key_detail}")[:150]
             n_same = disch.get(inst, 0)
             disch[inst] = n_same + 1
             if n_same:
-                inst = f"{inst}#{n_same}"
+                inst = f"{inst}~{n_same}"
             if ok:
                 ck.ok("R08.1", inst, detail=f"{rule}: {why}"[:280])
             else:
